@@ -375,6 +375,47 @@ class Func:
         self._sl = cand - bad
         return self._sl
 
+    DISCR_TESTS = {
+        'std::option::Option::<T>::is_none': ('std::option::Option', {1: 0, 0: 1}),
+        'std::option::Option::<T>::is_some': ('std::option::Option', {1: 1, 0: 0}),
+        'std::result::Result::<T, E>::is_ok': ('std::result::Result', {1: 0, 0: 1}),
+        'std::result::Result::<T, E>::is_err': ('std::result::Result', {1: 1, 0: 0}),
+    }
+
+    def _frozen_enums(self):
+        """locals whose discriminant can only change by a whole assignment (never mutably borrowed, no partial write)"""
+        if getattr(self, '_fe', None) is not None:
+            return self._fe
+        bad = set()
+        for blk in self.blocks:
+            for s in blk['stmts']:
+                if s['k'] != 'assign':
+                    continue
+                if s['lhs']['p']:
+                    bad.add(s['lhs']['l'])
+                rv = s['rv']
+                if rv['k'] in ('ref', 'rawptr') and rv.get('mut') and 'l' in rv.get('place', {}):
+                    bad.add(rv['place']['l'])
+            t = blk['term']
+            if t['k'] == 'call' and t['dest']['p']:
+                bad.add(t['dest']['l'])
+        self._fe = set(range(len(self.locals))) - bad
+        return self._fe
+
+    def _forget_enum(self, envd, x):
+        envd.pop(('D', x), None)
+        for k in [k for k, v in envd.items() if isinstance(k, tuple) and k[0] in ('R', 'DA') and (v == x or (isinstance(v, tuple) and v[0] == x))]:
+            envd.pop(k, None)
+
+    def cval(self, op):
+        """value of a constant operand, including named constants fixed by specialise()"""
+        v = const_val(op)
+        if v is None and op.get('k') == 'const' and op.get('def'):
+            for suf, val in getattr(self, 'const_overrides', {}).items():
+                if op['def'].endswith(suf):
+                    return int(val)
+        return v
+
     def _env_assign(self, envd, x, rv, stable):
         """effect of `x = rv` (x a whole local) on the environment"""
         def forget(l):
@@ -382,11 +423,19 @@ class Func:
             envd.pop(('A', l), None)
             for k in [k for k, v in envd.items() if isinstance(k, tuple) and v == l]:
                 envd.pop(k, None)
+        self._forget_enum(envd, x)
         if x not in stable:
             return
-        if rv is not None and rv['k'] == 'use' and rv['op'].get('k') == 'const' and const_val(rv['op']) is not None:
+        if rv is not None and rv['k'] == 'discr' and 'l' in rv.get('place', {}) and not rv['place']['p'] and rv['place']['l'] in self._frozen_enums():
+            e = rv['place']['l']
             forget(x)
-            envd[x] = const_val(rv['op'])
+            envd[('DA', x)] = e
+            if ('D', e) in envd:
+                envd[x] = envd[('D', e)]
+            return
+        if rv is not None and rv['k'] == 'use' and rv['op'].get('k') == 'const' and self.cval(rv['op']) is not None:
+            forget(x)
+            envd[x] = self.cval(rv['op'])
         elif rv is not None and rv['k'] == 'use' and 'l' in rv['op'] and not rv['op']['p'] and rv['op']['l'] in stable and rv['op']['l'] != x:
             y = rv['op']['l']
             root = envd.get(('A', y), y)
@@ -415,6 +464,15 @@ class Func:
         if t['k'] == 'call' and not t['dest']['p']:
             e2 = dict(envd)
             self._env_assign(e2, t['dest']['l'], None, stable)
+            dt = self.DISCR_TESTS.get(t.get('callee') or '')
+            if dt and t['args'] and 'l' in t['args'][0] and not t['args'][0]['p']:
+                d = self.single_def(t['args'][0]['l'])
+                if d and d[1] == 'assign' and d[2]['k'] == 'ref' and not d[2].get('mut') and not d[2]['place']['p'] and d[2]['place']['l'] in self._frozen_enums():
+                    e2[('R', t['dest']['l'])] = (d[2]['place']['l'], t.get('callee'))
+                    if ('D', d[2]['place']['l']) in e2 and t['dest']['l'] in stable:
+                        inv = {v: k for k, v in dt[1].items()}
+                        if e2[('D', d[2]['place']['l'])] in inv:
+                            e2[t['dest']['l']] = inv[e2[('D', d[2]['place']['l'])]]
             return [(x, e2) for x in succs]
         if t['k'] == 'switch' and 'l' in t['discr'] and not t['discr']['p'] and t['discr']['l'] in stable:
             d = t['discr']['l']
@@ -438,6 +496,14 @@ class Func:
                     e2 = dict(envd)
                     e2[d] = learn
                     e2[root] = learn
+                    for q in (d, root):
+                        if ('R', q) in e2:
+                            en, callee = e2[('R', q)]
+                            m = self.DISCR_TESTS[callee][1]
+                            if learn in m:
+                                e2[('D', en)] = m[learn]
+                        if ('DA', q) in e2:
+                            e2[('D', e2[('DA', q)])] = learn
                     out.append((x, e2))
             return out
         return [(x, envd) for x in succs]
@@ -461,7 +527,7 @@ class Func:
             envd = dict(nxt[0]) if nxt else {}
         return envd
 
-    def forward_paths_hit(self, starts, targets, blockers=(), stop_at_targets=True, track_bools=True, arm_at=None):
+    def forward_paths_hit(self, starts, targets, blockers=(), stop_at_targets=True, track_bools=True, arm_at=None, env0=None):
         """Location-level forward search over normal edges.
         Returns the first target location reachable from any start without
         crossing a blocker location (a blocker stops the path *at* it), plus the
@@ -484,7 +550,10 @@ class Func:
             # blockers only count after the path has passed `arm_at`
             return self._armed_search(arm_at, targets, blockers, track_bools)
         for s in starts:
-            dq.append((s[0], s[1], (s[0],), frozenset(self._seed_env(s[0]).items()) if track_bools else frozenset()))
+            e0 = self._seed_env(s[0]) if track_bools else {}
+            if env0:
+                e0 = dict(e0, **{k: v for k, v in env0.items()}) if False else {**e0, **env0}
+            dq.append((s[0], s[1], (s[0],), frozenset(e0.items())))
         while dq:
             bb, i, path, env = dq.popleft()
             if (bb, i, env) in seen:
@@ -770,7 +839,9 @@ class ExprBuilder:
         f = self.f
         if depth > self.max_depth or n in stack:
             return E('local', n, f.local_name(n))
-        ds = [x for x in f.defs.get(n, []) if not f.blocks[x[0][0]]['cleanup']]
+        if getattr(self, '_reach', None) is None:
+            self._reach = f.reachable_blocks(0)
+        ds = [x for x in f.defs.get(n, []) if not f.blocks[x[0][0]]['cleanup'] and x[0][0] in self._reach]
         pw = f.partial_writes(n)
         if 1 <= n <= f.nargs and not ds:
             return E('arg', n, f.local_name(n))
@@ -1269,7 +1340,10 @@ def specialise(f, def_suffix, value):
         live = cs['true'] if value else cs['false']
         if dead != live:
             rem.append((cs['bb'], dead))
-    return pruned(f, rem)
+    g = pruned(f, rem)
+    g.const_overrides = dict(getattr(f, 'const_overrides', {}))
+    g.const_overrides[def_suffix] = 1 if value else 0
+    return g
 
 
 _BINOPS = {
